@@ -193,6 +193,7 @@ async def search(ctx):
 
     await _ck.run_scenarios(ctx, lambda ctx, run_: Observer(ctx, run_), ["rerole", "nested_chain"])
     await recycle_scenarios(ctx)
+    await spelled_glob_scenarios(ctx)
     r = ctx.rng("pairs")
     n = ctx.budget(500, 12000)
     st = ctx.stats
@@ -252,6 +253,116 @@ async def search(ctx):
             if once == ["ok"] and (twice != ["ok", "ok"] or d1 != d2):
                 ctx.finding(Finding(PID, f"repeat-not-noop:{a[0]}", f"repeating {a} by {ca} is not a no-op",
                                     {"decl": a, "outcomes": twice}))
+
+
+async def spelled_glob_scenarios(ctx):
+    """The rule 'a glob pattern never matches a path that a step builds', through the client API: the pattern
+    and matches that the real `glob()` / `static()` send for any SPELLING of a pattern (`./*.txt`, `sub/../*.txt`,
+    from a working directory below the root) are given to the real Workflow next to a step that builds a file
+    the pattern matches on disk; the pair must be rejected in both orders."""
+    import os
+    import tempfile
+    import shutil
+
+    from stepup.core import api
+
+    r = ctx.rng("spelled-glob")
+    base = os.path.realpath(tempfile.mkdtemp(prefix="verif-c08g-"))
+    old_cwd = os.getcwd()
+    keys = ("STEPUP_ROOT", "HERE", "ROOT", "STEPUP_JOB_I", "STEPUP_DIRECTOR_SOCKET")
+    old_env = {k: os.environ.get(k) for k in keys}
+    old_client = api._get_cached_rpc_client
+    try:
+        for d in ("", "sub", "sub/deep"):
+            os.makedirs(os.path.join(base, d), exist_ok=True)
+            for f in ("a.txt", "b.txt"):
+                with open(os.path.join(base, d, f), "w") as fh:
+                    fh.write("x")
+        # (cwd of the step relative to the root, pattern as spelled there, the output it matches, root-relative)
+        spellings = [("", "*.txt", "a.txt"), ("", "./*.txt", "a.txt"), ("", "sub/../*.txt", "a.txt"),
+                     ("", "./sub/*.txt", "sub/a.txt"), ("sub", "./*.txt", "sub/a.txt"), ("sub", "../*.txt", "a.txt"),
+                     ("sub", "./../*.txt", "a.txt"), ("sub", "./deep/*.txt", "sub/deep/a.txt"),
+                     ("sub/deep", "./../*.txt", "sub/a.txt"), ("", "./sub/${*name}.txt", "sub/b.txt"),
+                     ("", ".//*.txt", "a.txt"), ("", "././*.txt", "a.txt")]
+        for cwd_rel, pattern, out in spellings:
+            for fn in ("glob", "static"):
+                client = _capture_client()
+                os.chdir(os.path.join(base, cwd_rel))
+                for k in keys:
+                    os.environ.pop(k, None)
+                os.environ["STEPUP_JOB_I"] = "0"
+                os.environ["STEPUP_ROOT"] = base
+                os.environ["HERE"] = cwd_rel or "."
+                api._get_cached_rpc_client = lambda client=client: client
+                try:
+                    if fn == "glob":
+                        api.glob(pattern)
+                        call = [c for c in client.calls if c[0] == "register_glob"][-1]
+                        sent = [(str(call[1][1]), [str(x) for x in call[1][3]])]
+                    else:
+                        api.static(pattern)
+                        call = [c for c in client.calls if c[0] == "declare_static"][-1]
+                        sent = [(str(pt), [str(x) for x in ms]) for pt, ms in call[1][3]]
+                except Exception as exc:  # noqa: BLE001
+                    ctx.stats.count(f"spelled-glob:{fn}:raises-{type(exc).__name__}")
+                    continue
+                finally:
+                    os.chdir(old_cwd)
+                for sent_pattern, sent_matches in sent:
+                    outcomes = {}
+                    for order in ("glob-then-step", "step-then-glob"):
+                        async with implkit.workflow() as wf:
+                            async with wf.db:
+                                wf.define_step(wf.root, "boot", need=Need.PLAN)
+                            res = []
+                            for what in order.split("-then-"):
+                                try:
+                                    async with wf.db:
+                                        boot = wf.find(Step, "boot")
+                                        if what == "glob":
+                                            ng = NamedGlob(sent_pattern)
+                                            ng.extend(sent_matches)
+                                            wf.register_nglob(boot, ng)
+                                        else:
+                                            wf.define_step(boot, "work", out_paths=[out])
+                                    res.append("ok")
+                                except GraphError as exc:
+                                    res.append("GraphError: " + str(exc)[:80])
+                            outcomes[order] = res
+                    ctx.stats.count(f"spelled-glob:{fn}")
+                    ctx.stats.case(("spelled-glob", fn, cwd_rel, pattern))
+                    accepted = [o for o, res in outcomes.items() if res == ["ok", "ok"]]
+                    if accepted:
+                        ctx.finding(Finding(PID, "ownership-glob-matches-product:spelled-pattern",
+                                            f"{fn}({pattern!r}) called in {cwd_rel or '.'!r} is sent to the director as "
+                                            f"{sent_pattern!r} with matches {sent_matches}; next to a step that builds "
+                                            f"{out!r} it is accepted ({', '.join(accepted)})",
+                                            {"cwd": cwd_rel, "function": fn, "pattern": pattern, "sent_pattern": sent_pattern,
+                                             "sent_matches": sent_matches, "output": out, "outcomes": outcomes}))
+    finally:
+        api._get_cached_rpc_client = old_client
+        os.chdir(old_cwd)
+        for k, v in old_env.items():
+            if v is None:
+                os.environ.pop(k, None)
+            else:
+                os.environ[k] = v
+        shutil.rmtree(base, ignore_errors=True)
+
+
+def _capture_client():
+    import attrs
+    from stepup.core.rpc import DummySyncRPCClient
+
+    @attrs.define
+    class Capture(DummySyncRPCClient):
+        calls: list = attrs.field(factory=list)
+
+        def __call__(self, name, /, *args, _rpc_timeout=None, **kwargs):
+            self.calls.append((name, args, kwargs))
+            return None
+
+    return Capture()
 
 
 async def recycle_scenarios(ctx):
